@@ -537,3 +537,21 @@ func checkTablePointerWriters(c *Ctx, rule string) {
 	}
 	c.Min(rule, "stores of the engine's table pointer", n, 2)
 }
+
+// checkStatePointerWriters (C15.R6, shared with C07/C01 through the hook rules): the state object of a live table is
+// never swapped. The hand's hooks (round-close clearing of the deadline, the error handler) and every in-place writer
+// reach it through the engine's table at the time they run — or, after a tidy-up, through a pointer they captured
+// when the hand started; a second site that publishes a *copy* of the state in its place makes those writes land on
+// the orphaned object (the deadline is never cleared, a top-up is lost) while each site looks fine alone.
+func checkStatePointerWriters(c *Ctx, rule string) {
+	p := c.P
+	n := 0
+	for _, ss := range p.FieldStores("Table", "State") {
+		n++
+		st, isSt := ss.Instr.(*ssa.Store)
+		fresh := isSt && rawLocal(st.Addr)
+		c.Check(fresh, rule, "state-pointer-writer:"+fnName(ss.Fn), p.InstrPos(ss.Instr), "the state of a table under construction",
+			fnName(ss.Fn)+" replaces the state object of a table that is already shared: hooks and writers that hold the previous object (the round-close hook of the running hand) keep writing to the orphan")
+	}
+	c.Min(rule, "stores of a table's state pointer", n, 1)
+}
